@@ -36,11 +36,12 @@ class BoolRaises:
         raise RuntimeError("truth value is ambiguous")
 
 
-FILES = ["/app/m.py", "/app/vendor/v.py", "/lib/inc/i.py", "/usr/x.py"]
+FILES = ["/app/m.py", "/app/vendor/v.py", "/lib/inc/i.py", "/usr/x.py", "/app/pkg/app/m.py", "/lib/inc/lib/inc/i.py"]
 # expected (app_frame, short_path) with APP_ROOT=/app, include=/lib/inc, exclude=/app/vendor (exclusion wins)
 EXPECT = {"/app/m.py": (True, "/m.py"), "/app/vendor/v.py": (False, "/v.py"), "/lib/inc/i.py": (True, "/i.py"),
-          "/usr/x.py": (False, "/usr/x.py")}
-TOPS = [(0, 0), (0, 1), (0, 2), (1, 0), (2, 3), (3, 0), (0, 4), (0, 5), (0, 6)]      # (file index, self kind) of the top frame
+          "/usr/x.py": (False, "/usr/x.py"), "/app/pkg/app/m.py": (True, "/pkg/app/m.py"),
+          "/lib/inc/lib/inc/i.py": (True, "/lib/inc/i.py")}
+TOPS = [(0, 0), (0, 1), (0, 2), (1, 0), (2, 3), (3, 0), (0, 4), (0, 5), (0, 6), (4, 1), (5, 0)]      # (file index, self kind) of the top frame
 LOWERS = [(0, 0), (1, 1), (2, 2), (3, 3), (0, 4), (1, 5)]      # (file index, self kind) of the lower frames
 FRAME_TYPES = ["single_frame", "all_frame", "no_frame", "bogus_type", None]
 
@@ -63,7 +64,7 @@ def fidelity(depth: int, ft: int, kind: int, t: int, top: int, lower: int, nw: i
     A stack of 1-3 frames (files in/outside the app root / include / exclude prefixes, self absent / instance / None / falsy instance (empty container subclass, __bool__ False or raising)),
     top-frame locals from a graph template, frame_type single/all/none/unknown/absent, 0-2 watches, line or method
     tracepoint, the snapshot equals an independent reading.
-    PRE: 1 <= depth <= 3 and 0 <= ft <= 4 and 0 <= kind <= 1 and 0 <= t <= 9 and 0 <= top <= 8 and 0 <= lower <= 5 and 0 <= nw <= 2
+    PRE: 1 <= depth <= 3 and 0 <= ft <= 4 and 0 <= kind <= 1 and 0 <= t <= 9 and 0 <= top <= 10 and 0 <= lower <= 5 and 0 <= nw <= 2
     PRE: ts > 0 and line0 >= 1 and line1 >= 1
     PRE: kind == 0 or ft == 0
     PRE: depth > 1 or lower == 0
@@ -214,9 +215,9 @@ CONDITIONS = [
          cubes={"quick": ["depth == %d and ft == %d and kind == %d and top == %d and lower <= 3 and t in (0, 4, 8, 9) and nw != 1" % (d, f, k, tp)
                           for d in (1, 2, 3) for (f, k) in ((0, 0), (1, 0), (2, 0), (3, 0), (4, 0), (0, 1)) for tp in range(6)] +
                          ["depth == %d and ft == %d and kind == 0 and top == %d and lower %s and t in (0, 4, 8, 9) and nw != 1" % (d, f, tp, lo)
-                          for (d, f, lo) in ((1, 0, "== 0"), (2, 1, ">= 4")) for tp in (6, 7, 8)],
+                          for (d, f, lo) in ((1, 0, "== 0"), (2, 1, ">= 4")) for tp in (6, 7, 8, 9, 10)],
                 "thorough": ["depth == %d and ft == %d and kind == %d and t == %d and top == %d" % (d, f, k, t, tp) for d in (1, 2, 3)
-                             for (f, k) in ((0, 0), (1, 0), (2, 0), (3, 0), (4, 0), (0, 1)) for t in range(10) for tp in ((0, 1, 2, 3, 4, 5, 6, 7, 8) if (f, k) == (0, 0) else (0, 1, 4, 6))]},
+                             for (f, k) in ((0, 0), (1, 0), (2, 0), (3, 0), (4, 0), (0, 1)) for t in range(10) for tp in ((0, 1, 2, 3, 4, 5, 6, 7, 8, 9, 10) if (f, k) == (0, 0) else (0, 1, 4, 6, 9))]},
          twins=["reach", "mutant:swap_file_short@depth == 1 and ft == 0 and kind == 0 and top == 1 and t in (0, 4, 8, 9) and nw != 1",
                 "mutant:all_means_single@depth == 2 and ft == 1 and kind == 0 and top == 1 and t in (0, 4, 8, 9) and nw != 1",
                 "mutant:class_of_type@depth == 1 and ft == 0 and kind == 0 and top == 1 and t in (0, 4, 8, 9) and nw != 1",
